@@ -87,3 +87,15 @@ func TestVerifC04Sweep(t *testing.T) {
 	vcSweep(t, "VerifC04Faults", VerifC04Faults, []vcDim{{"prefix", len(vcPrefixes)}, {"step0", stKinds}})
 	vcSweep(t, "VerifC04History", VerifC04History, []vcDim{{"prefix", len(vcPrefixes)}, {"step0", int(stInstall) + 1}, {"step1", int(stInstall) + 1}})
 }
+
+// TestVerifC04SweepReap: the consolidation histories (VerifC04Reap, quick-tier choices) and the
+// hand-picked scenarios in the native world: real SQLite WAL files, the real plan.Executor.
+//
+//	run: cd /verif && VERIF_NATIVE=1 ./bin/symgo nativetest C04 TestVerifC04SweepReap
+func TestVerifC04SweepReap(t *testing.T) {
+	if os.Getenv("VERIF_NATIVE") == "" {
+		t.Skip()
+	}
+	vcSweep(t, "VerifC04Scenarios", VerifC04Scenarios, []vcDim{{"scenario", len(vcScenarios)}})
+	vcSweep(t, "VerifC04Reap", VerifC04Reap, []vcDim{{"own-full-first", 2}, {"image", 3}, {"incrementals", 2}, {"page0", 3}, {"page1", 2}, {"after", 3}})
+}
